@@ -132,6 +132,38 @@ def shard_systematic(kind, lo, hi, tier):
                         res.nontrivial_count += 1
                         _batch_judge(items, res, name)
             res.sample({'far': 'call/tail', 'distance class': d, 'jitter': '-8..8 step 2', 'directions': 'both'})
+    elif kind == 'preset':
+        # call / tail to an absolute address given as a CONSTANT (e.g. a ROM routine): all residues of the distance modulo 4096
+        # at a few upper parts, from offsets 0/2/4/6.  (Labels preset through the labels= argument are NOT used for this: the
+        # assembler treats them as program labels and moves them when earlier items shrink - undocumented territory.)
+        a = _prog.get_asm()
+        uppers = [0x20000000, 0x00200000, 0x7ffff000, 0x00100000][lo:hi]
+        for up in uppers:
+            for r in range(0, 4096, 2 if tier == 'thorough' else 6):
+                target = up + r
+                for name in ('call', 'tail'):
+                    for pre in ((), ('c.nop',), ('nop',), ('nop', 'c.nop')):
+                        for comp in (False, True):
+                            src = 'ext_target = 0x%x\n' % target + ''.join(p + '\n' for p in pre) + '%s ext_target\n' % name
+                            res.evaluations += 1
+                            res.nontrivial_count += 1
+                            try:
+                                out = bytes(a.assemble(src, compress=comp))
+                            except Exception as e:
+                                res.count('constant_target_refused')   # whether a constant may be a call target is not documented
+                                continue
+                            items = [ir.Insn('c.nop', {}) if p == 'c.nop' else ir.Pseudo('nop', []) for p in pre] + [ir.Pseudo(name, ['ext_target'])]
+                            w, _ = refwalk._segment(items, out, {})
+                            if not w.complete:
+                                res.fail('pseudo_effect:%s:preset' % name, 'output of %r does not segment' % src, {'kind': 'preset', 'source': src, 'target': target, 'compress': comp})
+                                continue
+                            off, sz, insns = w.seg[-1]
+                            ctx = ir.Ctx({}, {'ext_target': target}, off)
+                            why = refwalk.check_pseudo(items[-1], insns, off, off + sz, ctx) if all(x[5] is not None for x in insns) else 'undecodable expansion'
+                            if why:
+                                res.fail('pseudo_effect:%s:preset:%s' % (name, 'c' if comp else 'u'), '%s at offset %d to the constant address 0x%x: %s; expansion %r' % (
+                                    name, off, target, why, [x[5] for x in insns]), {'kind': 'preset', 'source': src, 'target': target, 'compress': comp})
+            res.sample({'preset label': hex(up), 'residues': 'all even residues mod 4096' if tier == 'thorough' else 'every 6th', 'from offsets': [0, 2, 4, 6]})
     else:
         # li value space: low 13 bits complete x upper parts [lo, hi)
         ups = LI_UPPERS[lo:hi]
@@ -168,6 +200,7 @@ def run(tier):
     jobs += [('li', i, i + 1, tier) for i in range(ups)]
     nd = len(S.Builder.DIST['call'])
     jobs += [('far', i, i + 1, tier) for i in range(nd)]
+    jobs += [('preset', i, i + 1, tier) for i in range(4)]
     chk.merge(env.run_shards(shard_systematic, jobs))
     progcheck.run_sharded(chk, PROP, PROFILE, N[tier], 'judge', __name__)
     _prog.check_vacuity(chk)
@@ -176,4 +209,27 @@ def run(tier):
 
 
 def replay(path):
+    with open(path) as f:
+        body = json.load(f)
+    c = body['case']
+    if c.get('kind') == 'preset':
+        r = env.Result()
+        a = _prog.get_asm()
+        try:
+            out = bytes(a.assemble(c['source'], compress=c['compress']))
+        except Exception as e:
+            print('VIOLATION property=%s replay=%s' % (PROP, path))
+            print('  refused: %s' % e)
+            return env.EXIT_VIOLATION
+        lines = c['source'].split()
+        items = [ir.Insn('c.nop', {}) if p == 'c.nop' else ir.Pseudo('nop', []) for p in c['source'].splitlines()[1:-1]] + [ir.Pseudo(c['source'].splitlines()[-1].split()[0], ['ext_target'])]
+        w, _ = refwalk._segment(items, out, {})
+        off, sz, insns = w.seg[-1]
+        why = refwalk.check_pseudo(items[-1], insns, off, off + sz, ir.Ctx({}, {'ext_target': c['target']}, off))
+        if why:
+            print('VIOLATION property=%s replay=%s' % (PROP, path))
+            print('  ' + why)
+            return env.EXIT_VIOLATION
+        print('replay holds: %s' % path)
+        return env.EXIT_OK
     return progcheck.replay_program(path, judge)
